@@ -21,9 +21,23 @@ class Planted:
         self.n += 1
         return ('Zq%dqZ' if sens else 'Kp%dpK') % self.n
 
+def variant_string(lr, kind):
+    """another member of the same lexical class (never '$'-prefixed; e-mail-shaped iff kind == 'email')"""
+    if kind == 'email':
+        n = lr.choice([1, 2, 5, 12, 30, 63, 64, 65, 100, 180, 230])
+        return ''.join(lr.choice('abcxyz0189._-+!#') for _ in range(n)) + 'q@' + lr.choice(['x.io', 'example.org', 'a-b.c.d.museum', 'h'])
+    n = lr.choice([0, 1, 2, 5, 20, 200, 200, 3000, 20000])
+    alphabet = 'abc XYZ019"\\/{}[]:,<>&\n\t\u00e9\u4e2d\U0001F600$@.%s'
+    s = ''.join(lr.choice(alphabet) for _ in range(n))
+    if s.startswith('$'): s = 'x' + s
+    if '@' in s and lr.random() < 0.9: s = s.replace('@', ' at ')   # keep it out of the e-mail class almost always; the class test is re-done below
+    return s
+
 class G:
-    def __init__(self, rng, vocab=None, depth=4, collide=False):
+    def __init__(self, rng, vocab=None, depth=4, collide=False, lit_rng=None, vary_nums=False, vary_bools=False):
         self.r = rng
+        self.lr = lit_rng
+        self.vary_nums, self.vary_bools = vary_nums, vary_bools
         self.p = Planted()
         self.vocab = vocab or {}
         self.maxdepth = depth
@@ -48,10 +62,16 @@ class G:
         elif k == 'escapes': s = '"\\' + core + '\n\t<&> /\x01'
         elif k == 'empty':
             self.p.n -= 1
+            if self.lr is not None: return variant_string(self.lr, 'generic')
             return ''
         elif k == 'lookalike': s = 'REDACTED' + core
         else: s = core * 40
         self.p.sensitive.append((core, 'string', where))
+        if self.lr is not None:
+            import re as _re
+            v = variant_string(self.lr, 'email' if k == 'email' else 'generic')
+            is_mail = lambda x: 3 <= len(x) <= 254 and _re.match(r"^[a-zA-Z0-9.!#$%&'*+/=?^_`{|}~-]+@[a-zA-Z0-9](?:[a-zA-Z0-9-]{0,61}[a-zA-Z0-9])?(?:\.[a-zA-Z0-9](?:[a-zA-Z0-9-]{0,61}[a-zA-Z0-9])?)*$", x) is not None
+            if (k == 'email') == is_mail(v): s = v
         return s
 
     def s_number(self, where):
@@ -60,21 +80,27 @@ class G:
         base = 7000000 + self.p.n
         lit = {'int': str(base), 'big': str(base) + '123456789012', 'dec': str(base) + '.25', 'exp': str(base) + 'e3', 'neg': '-' + str(base)}[k]
         self.p.sens_numbers.append((str(base), where))
+        if self.lr is not None and self.vary_nums:
+            lit = self.lr.choice(['0', '-0', '1', '12345678901234567890', '3.25', '1e-9', '-7E+3', str(self.lr.randint(-10**9, 10**9))])
         return RawNum(lit)
 
     def s_bool(self, where):
-        return self.r.choice([True, False])
+        b = self.r.choice([True, False])
+        if self.lr is not None and self.vary_bools: b = self.lr.choice([True, False])
+        return b
 
     def s_date(self, where):
         self.p.n += 1
         s = '2024-0%d-1%dT0%d:%02d:%02d.%03dZ' % (1 + self.p.n % 9, self.p.n % 9, self.p.n % 9, self.p.n % 60, (self.p.n // 60) % 60, self.p.n % 1000)
         self.p.sensitive.append((s, 'date', where))
+        if self.lr is not None: s = self.lr.choice(['1999-12-31T23:59:59.999Z', '2030-01-01T00:00:00Z', 'not a date', '', variant_string(self.lr, 'generic')[:40].lstrip('$')])
         return {'$date': s}
 
     def s_oid(self, where):
         self.p.n += 1
         s = '5f%022x' % (0xabc000000 + self.p.n)
         self.p.sensitive.append((s, 'oid', where))
+        if self.lr is not None: s = '%024x' % self.lr.getrandbits(96)
         return {'$oid': s}
 
     def s_binary(self, where):
@@ -82,7 +108,9 @@ class G:
         core = self.p.core(True)
         b = base64.b64encode(('bin' + core + 'x').encode()).decode()
         self.p.sensitive.append((b, 'base64', where))
-        return {'$binary': {'base64': b, 'subType': self.r.choice(['00', '04', '0', '80'])}}
+        sub = self.r.choice(['00', '04', '0', '80'])
+        if self.lr is not None: b = base64.b64encode(bytes(self.lr.randrange(256) for _ in range(self.lr.randint(0, 40)))).decode()
+        return {'$binary': {'base64': b, 'subType': sub}}
 
     def literal(self, where, depth=0, scalar_only=False):
         kinds = ['str', 'str', 'str', 'num', 'bool', 'null', 'date', 'oid', 'bin', 'long', 'uuid']
@@ -375,9 +403,10 @@ def dumps(v):
 DBS = ['mydb', 'app_db', 'déb', 'shop']
 COLLS = ['users', 'orders.archive', 'cöll', 'system.profile', '$cmd', 'events']
 
-def command_line(rng, vocab=None, collide=False, depth=4):
-    """One grammar-generated log line. Returns (bytes, info)."""
-    g = G(rng, vocab, depth=depth, collide=collide)
+def command_line(rng, vocab=None, collide=False, depth=4, lit_rng=None, vary_nums=False, vary_bools=False):
+    """One grammar-generated log line. Returns (bytes, info). With lit_rng the CONTENTS of the sensitive literals are
+    re-drawn from it within their lexical class while every structural choice still comes from rng."""
+    g = G(rng, vocab, depth=depth, collide=collide, lit_rng=lit_rng, vary_nums=vary_nums, vary_bools=vary_bools)
     db, coll = rng.choice(DBS), rng.choice(COLLS)
     placement = rng.choice(['command', 'command', 'command', 'cmd', 'originatingCommand', 'both', 'write'])
     comp = rng.choice(['COMMAND', 'COMMAND', 'QUERY', 'WRITE', 'slow'])
